@@ -1595,6 +1595,9 @@ def _returns_to_assignments(stmts, target):
         if not blk:
             return False
         last = blk[-1]
+        if isinstance(last, ast.Match):
+            c_last = last.cases[-1]
+            return c_last.guard is None and isinstance(c_last.pattern, ast.MatchAs) and c_last.pattern.pattern is None and all(always_exits(c.body) for c in last.cases)
         return isinstance(last, (ast.Return, ast.Raise)) or (isinstance(last, ast.If) and always_exits(last.body) and always_exits(last.orelse))
 
     def has_return(node):
@@ -1622,6 +1625,20 @@ def _returns_to_assignments(stmts, target):
                 if b is None or o is None:
                     return None
                 out.append(ast.If(test=st.test, body=b or [ast.Pass()], orelse=o))
+                return out
+            if isinstance(st, ast.Match) and has_return(st):
+                # every case ends in return / raise and the last one is irrefutable (`case _`): the match itself is the decision
+                last = st.cases[-1]
+                irrefutable = last.guard is None and isinstance(last.pattern, ast.MatchAs) and last.pattern.pattern is None
+                if not irrefutable or not all(always_exits(c.body) for c in st.cases):
+                    return None
+                new_cases = []
+                for c in st.cases:
+                    b = conv(c.body)
+                    if b is None:
+                        return None
+                    new_cases.append(ast.match_case(pattern=c.pattern, guard=c.guard, body=b or [ast.Pass()]))
+                out.append(ast.Match(subject=st.subject, cases=new_cases))
                 return out
             if has_return(st):
                 return None
